@@ -1,5 +1,6 @@
 import Verif.Model.Cert
 import Verif.Spec.Flat
+import Verif.Model.Flatten
 
 /- driver-side evaluation of the Flatten validators (I/O glue; no theorem depends on it) -/
 
@@ -17,6 +18,21 @@ def bundleOfJson (j : J) : Bundle where
 def encPos (p : Pos) : J := .str (p.1 ++ "#/" ++ String.intercalate "/" p.2)
 
 def hops : Nat := 64
+
+/-- the external functions `Flatten.isNF` looks at: `$ref` decoding and the format registry -/
+def nfExt (x : Classify.Ext) : Flatten.Ext where
+  mkRef := fun _ => none
+  jsonName := fun _ => none
+  goName := fun _ => none
+  fold := fun _ => none
+  refTokens := x.refTokens
+  knownFormat := x.knownFormat
+  statusText := fun _ => none
+
+def nfOpts (opts : J) : Flatten.Opts :=
+  let flag := fun k => match opts.get? k with | some (.bool true) => true | _ => false
+  { minimal := flag "minimal", expand := flag "expand", removeUnused := flag "removeUnused",
+    keepNames := flag "keepNames", basePath := "$DIR/root.json" }
 
 /-- input: {in: bundle, out: bundle, opts, canon: {name: ref}, ext: {knownFormats, refTokens}} -/
 def run (fc : Facts) (inp : J) : J :=
@@ -71,6 +87,8 @@ def run (fc : Facts) (inp : J) : J :=
     ("sharedSectionsEmpty", .bool (Spec.Flat.sharedSectionsEmpty root2)),
     ("unreferenced", mkStrs (Spec.Flat.unreferenced canon root2)),
     ("inlineComplex", .arr ((Spec.Flat.inlineComplex fc x root2).map fun t => .str (Spec.Index.key t))),
-    ("cyclicInput", .bool (Spec.Flat.cyclic b1))]
+    ("cyclicInput", .bool (Spec.Flat.cyclic b1)),
+    -- C08: is the output a normal form of the phase model (Flatten.isNF; theorem C08.identity_on_normal_forms)?
+    ("isNF", .bool (Flatten.isNF fc (nfExt x) (nfOpts opts) root2))]
 
 end FlatDriver
